@@ -111,15 +111,28 @@ type Conn struct {
 	Host        *Host
 	nc          net.Conn
 	wmu         sync.Mutex
-	Version     primitive.ProtocolVersion
-	Compression string
-	Keyspace    string
-	Registered  bool
+	smu         sync.Mutex // guards the four state fields below (written by the serving goroutine, read by oracles)
+	version     primitive.ProtocolVersion
+	compression string
+	keyspace    string
+	registered  bool
 	muted       int32
 	closed      int32
 	started     bool
 	sysPeers    int32 // number of system.peers results sent on this connection
 }
+
+// Ver is the protocol version of the connection (0 until the first frame).
+func (x *Conn) Ver() primitive.ProtocolVersion { x.smu.Lock(); defer x.smu.Unlock(); return x.version }
+
+// Comp is the negotiated compression ("" none).
+func (x *Conn) Comp() string { x.smu.Lock(); defer x.smu.Unlock(); return x.compression }
+
+// Ks is the connection's current keyspace.
+func (x *Conn) Ks() string { x.smu.Lock(); defer x.smu.Unlock(); return x.keyspace }
+
+// IsRegistered tells whether the connection REGISTERed for events (a control connection).
+func (x *Conn) IsRegistered() bool { x.smu.Lock(); defer x.smu.Unlock(); return x.registered }
 
 // PeersAnswered tells how many system.peers queries this connection has answered (a control connection is fully
 // established once its system.local and system.peers queries were answered).
@@ -351,7 +364,7 @@ func (c *Cluster) KillPooled(rst bool, idxs ...int) int {
 	var all []*Conn
 	for _, i := range idxs {
 		for _, x := range c.Hosts[i-1].Conns() {
-			if !x.Registered {
+			if !x.IsRegistered() {
 				all = append(all, x)
 			}
 		}
@@ -414,7 +427,7 @@ func (c *Cluster) Emit(msg message.Message) int {
 	n := 0
 	for _, h := range c.Hosts {
 		for _, x := range h.Conns() {
-			if x.Registered && !x.IsClosed() {
+			if x.IsRegistered() && !x.IsClosed() {
 				if err := x.sendMsg(-1, msg, Outcome{Name: "EVENT"}, "event"); err == nil {
 					n++
 				}
@@ -440,7 +453,7 @@ func (c *Cluster) ControlConns() []*Conn {
 	var out []*Conn
 	for _, h := range c.Hosts {
 		for _, x := range h.Conns() {
-			if x.Registered && !x.IsClosed() {
+			if x.IsRegistered() && !x.IsClosed() {
 				out = append(out, x)
 			}
 		}
@@ -525,7 +538,7 @@ func (x *Conn) serve() {
 		x.Host.mu.Lock()
 		delete(x.Host.conns, x.ID)
 		x.Host.mu.Unlock()
-		x.Host.c.log.Add(mon.Event{Src: "backend", K: "closed", Host: x.Host.Idx, Conn: x.ID, Ctl: x.Registered})
+		x.Host.c.log.Add(mon.Event{Src: "backend", K: "closed", Host: x.Host.Idx, Conn: x.ID, Ctl: x.IsRegistered()})
 	}()
 	hdrBuf := make([]byte, 9)
 	for {
@@ -582,20 +595,22 @@ func Decompress(alg string, b []byte) ([]byte, error) { return decompress(string
 func (x *Conn) handle(hdr *frame.Header, raw []byte) {
 	c := x.Host.c
 	if !x.started {
-		x.Version = hdr.Version
+		x.smu.Lock()
+		x.version = hdr.Version
+		x.smu.Unlock()
 		x.started = true
 	}
 	plain := raw
 	var decErr error
 	if hdr.Flags.Contains(primitive.HeaderFlagCompressed) {
-		plain, decErr = decompress(strings.ToLower(x.Compression), raw)
+		plain, decErr = decompress(strings.ToLower(x.Comp()), raw)
 	}
 	tok := ""
 	if decErr == nil {
 		tok = FindToken(plain)
 	}
 	ev := mon.Event{Src: "backend", K: "recv", Host: x.Host.Idx, Conn: x.ID, Ver: int(hdr.Version), Fl: int(hdr.Flags),
-		St: int(hdr.StreamId), Op: int(hdr.OpCode), Tok: tok, Ks: x.Keyspace, Comp: x.Compression, Body: raw, Ctl: x.Registered}
+		St: int(hdr.StreamId), Op: int(hdr.OpCode), Tok: tok, Ks: x.Ks(), Comp: x.Comp(), Body: raw, Ctl: x.IsRegistered()}
 
 	if hdr.OpCode == primitive.OpCodeOptions {
 		v, _ := c.optionsSeen.LoadOrStore(x.ID, new(int32))
@@ -609,13 +624,13 @@ func (x *Conn) handle(hdr *frame.Header, raw []byte) {
 
 	// fidelity rules a real node enforces
 	if !c.cfg.Lenient {
-		if hdr.Version != x.Version {
+		if hdr.Version != x.Ver() {
 			ev.Note = "version-mismatch"
 			c.log.Add(ev)
-			x.sendMsgVer(x.Version, hdr.StreamId, &message.ProtocolError{ErrorMessage: fmt.Sprintf("Invalid message version. Got %d but previous messages on this connection had version %d", hdr.Version, x.Version)}, Outcome{Name: "ProtocolError:version"}, "reply")
+			x.sendMsgVer(x.Ver(), hdr.StreamId, &message.ProtocolError{ErrorMessage: fmt.Sprintf("Invalid message version. Got %d but previous messages on this connection had version %d", hdr.Version, x.Ver())}, Outcome{Name: "ProtocolError:version"}, "reply")
 			return
 		}
-		if hdr.Flags.Contains(primitive.HeaderFlagCompressed) && x.Compression == "" {
+		if hdr.Flags.Contains(primitive.HeaderFlagCompressed) && x.Comp() == "" {
 			ev.Note = "compressed-without-negotiation"
 			c.log.Add(ev)
 			x.sendMsg(hdr.StreamId, &message.ProtocolError{ErrorMessage: "Received compressed frame but no compression was negotiated"}, Outcome{Name: "ProtocolError:compression"}, "reply")
@@ -696,9 +711,13 @@ func (x *Conn) handle(hdr *frame.Header, raw []byte) {
 			return
 		}
 		x.sendMsg(hdr.StreamId, &message.Ready{}, Outcome{Name: "Ready"}, "reply")
-		x.Compression = comp
+		x.smu.Lock()
+		x.compression = comp
+		x.smu.Unlock()
 	case *message.Register:
-		x.Registered = true
+		x.smu.Lock()
+		x.registered = true
+		x.smu.Unlock()
 		x.sendMsg(hdr.StreamId, &message.Ready{}, Outcome{Name: "Ready"}, "reply")
 	case *message.Query:
 		lq := strings.ToLower(strings.TrimSpace(m.Query))
@@ -723,7 +742,9 @@ func (x *Conn) handle(hdr *frame.Header, raw []byte) {
 			ok := c.ks[canon]
 			c.mu.Unlock()
 			if ok {
-				x.Keyspace = canon
+				x.smu.Lock()
+				x.keyspace = canon
+				x.smu.Unlock()
 				x.sendMsg(hdr.StreamId, &message.SetKeyspaceResult{Keyspace: canon}, Outcome{Name: "SetKeyspace"}, "reply")
 			} else {
 				x.sendMsg(hdr.StreamId, &message.Invalid{ErrorMessage: fmt.Sprintf("Keyspace '%s' does not exist", canon)}, Outcome{Name: "Invalid:keyspace"}, "reply")
@@ -840,7 +861,7 @@ func (x *Conn) data(hdr *frame.Header, body *frame.Body, raw []byte, tok string,
 func (c *Cluster) defaultOutcome(a *Arrival) Outcome {
 	switch a.OpCode {
 	case primitive.OpCodePrepare:
-		ks := a.Conn.Keyspace
+		ks := a.Conn.Ks()
 		if p, ok := a.Body.Message.(*message.Prepare); ok && p.Keyspace != "" {
 			ks = Canonical(p.Keyspace)
 		}
@@ -879,7 +900,7 @@ func i32(v int) []byte { b := make([]byte, 4); binary.BigEndian.PutUint32(b, uin
 func (x *Conn) echoRows(tok string, n int) *message.RowsResult {
 	return &message.RowsResult{
 		Metadata: &message.RowsMetadata{ColumnCount: int32(len(echoColumns)), Columns: echoColumns},
-		Data: []message.Row{{[]byte(tok), i32(x.Host.Idx), i32(x.ID), []byte(x.Keyspace), i32(int(x.Version)), []byte(x.Compression), i32(n)}},
+		Data: []message.Row{{[]byte(tok), i32(x.Host.Idx), i32(x.ID), []byte(x.Ks()), i32(int(x.Ver())), []byte(x.Comp()), i32(n)}},
 	}
 }
 
@@ -914,16 +935,20 @@ func (x *Conn) sendMsg(stream int16, msg message.Message, o Outcome, kind string
 }
 
 func (x *Conn) sendMsgVer(v primitive.ProtocolVersion, stream int16, msg message.Message, o Outcome, kind string) error {
-	save := x.Version
-	x.Version = v
+	x.smu.Lock()
+	save := x.version
+	x.version = v
+	x.smu.Unlock()
 	err := x.sendMsgTok(stream, msg, o, kind, "", 0)
-	x.Version = save
+	x.smu.Lock()
+	x.version = save
+	x.smu.Unlock()
 	return err
 }
 
 func (x *Conn) sendMsgTok(stream int16, msg message.Message, o Outcome, kind string, tok string, n int) error {
 	c := x.Host.c
-	v := x.Version
+	v := x.Ver()
 	if v == 0 {
 		v = primitive.ProtocolVersion4
 	}
@@ -939,8 +964,8 @@ func (x *Conn) sendMsgTok(stream int16, msg message.Message, o Outcome, kind str
 		f.SetCustomPayload(o.Payload)
 	}
 	codec := plainCodec
-	if x.Compression != "" && !c.cfg.NeverCompress && !o.NoCompress {
-		switch x.Compression {
+	if x.Comp() != "" && !c.cfg.NeverCompress && !o.NoCompress {
+		switch x.Comp() {
 		case "lz4":
 			codec = lz4Codec
 		case "snappy":
@@ -958,7 +983,7 @@ func (x *Conn) sendMsgTok(stream int16, msg message.Message, o Outcome, kind str
 	}
 	b := buf.Bytes()
 	ev := mon.Event{Src: "backend", K: kind, Host: x.Host.Idx, Conn: x.ID, Ver: int(v), Fl: int(b[1]), St: int(stream), Op: int(b[4]),
-		Tok: tok, Arrival: n, Outcome: o.Name, Body: b[9:], Ctl: x.Registered, Ks: x.Keyspace, Comp: x.Compression}
+		Tok: tok, Arrival: n, Outcome: o.Name, Body: b[9:], Ctl: x.IsRegistered(), Ks: x.Ks(), Comp: x.Comp()}
 	if o.Hold {
 		c.mu.Lock()
 		c.held = append(c.held, &held{conn: x, bytes: b, ev: ev, drop: o.Drop})
